@@ -278,6 +278,44 @@ def handle (op : String) (j : Json) : Except String Json := do
                       ("bool", Json.arr (gb.map (fun p => Json.arr #[Json.bool p.1, intsToJson p.2])).toArray),
                       ("sorted", intsToJson (sortedInt xs))])
   -- --- end T12
+  -- --- T15: numpy arrays (see the T15 block of OQ/Exec/Py.lean)
+  | "t15_np" =>
+    let xs ← listOfJson intOfJson (← field j "xs"); let ys ← listOfJson intOfJson (← field j "ys")
+    let str ← strOf (← field j "s"); let k ← intOfJson (← field j "k"); let n ← intOfJson (← field j "n")
+    let i ← intOfJson (← field j "i"); let i2 ← intOfJson (← field j "i2")
+    let aw ← natOfJson (← field j "aw"); let arows ← listOfJson (listOfJson intOfJson) (← field j "arows")
+    let bw ← natOfJson (← field j "bw"); let brows ← listOfJson (listOfJson intOfJson) (← field j "brows")
+    let idx ← listOfJson intOfJson (← field j "idx"); let tuples ← listOfJson (listOfJson intOfJson) (← field j "tuples")
+    let A : Arr2 Int := ⟨aw, arows⟩
+    let B : Arr2 Int := ⟨bw, brows⟩
+    let AQ : Arr2 Rat := ⟨aw, arows.map (fun r => r.map (fun (x : Int) => (x : Rat)))⟩
+    let a2J (M : Arr2 Int) : Json := Json.mkObj [("w", intJ M.width), ("rows", Json.arr ((M.rows.map intsToJson).toArray))]
+    let q2J (M : Arr2 Rat) : Json := Json.mkObj [("w", intJ M.width), ("rows", Json.arr ((M.rows.map ratsToJson).toArray))]
+    let o2J (M : Arr2 (Option Rat)) : Json := Json.mkObj [("w", intJ M.width),
+      ("rows", Json.arr ((M.rows.map (fun r => Json.arr ((r.map (optJ ratToJson)).toArray))).toArray))]
+    pure (Json.mkObj [
+      ("u1", intsToJson (npAstypeInt (npSubU8 (npFromBufferU1 str) 48))),
+      ("reshape", excJ4 a2J (npReshapeE (npFromIterInt xs) n)),
+      ("shape", intsToJson (npShape2 A)),
+      ("ones", intsToJson (npOnes (Int.ofNat n.toNat))),
+      ("takecols", excJ4 a2J (npTakeColsE A idx)),
+      ("sumaxis1", intsToJson (npSumAxis1 A)),
+      ("adds", intsToJson (npAddS xs k)), ("subs", intsToJson (npSubS xs k)), ("muls", intsToJson (npMulS xs k)),
+      ("mods", if k == 0 then Json.null else intsToJson (npModS xs k)), ("rsubs", intsToJson (npRSubS k xs)),
+      ("abs", intsToJson (npAbs1 xs)),
+      ("mul1", excJ4 intsToJson (npZip1E (fun x y => x * y) xs ys)), ("sub1", excJ4 intsToJson (npZip1E (fun x y => x - y) xs ys)),
+      ("truediv", excJ4 ratsToJson (npTrueDivE (ν := Rat) xs n)),
+      ("sum1", intJ (npSum1 xs)),
+      ("zeros2", q2J (npZeros2 (ν := Rat) (Int.ofNat n.toNat) (Int.ofNat k.toNat))),
+      ("get2", excJ4 intJ (npGet2E A i i2)),
+      ("set2", excJ4 a2J ((npGet2E A i i2).bind (fun _ => .ok (npSet2 A i i2 k)))),
+      ("col", a2J (npCol xs)), ("row", a2J (npRow xs)),
+      ("outer", excJ4 a2J (npZip2E (fun x y => x * y) (npCol xs) (npRow ys))),
+      ("mul2", excJ4 a2J (npZip2E (fun x y => x * y) A B)), ("sub2", excJ4 a2J (npZip2E (fun x y => x - y) A B)),
+      ("divs2", o2J (npDivS2 AQ n)),
+      ("enumerate", Json.arr ((enumerate xs).map (fun p => Json.arr #[intJ p.1, intJ p.2])).toArray),
+      ("arrayrows", excJ4 (optJ a2J) (npArrayRowsE tuples))])
+  -- --- end T15
   | _ => throw s!"unknown prelude op {op}"
 
 end OQ.PY.Driver
